@@ -4,7 +4,7 @@ from harness.core import Case
 from harness.canon import hx, tx
 from harness.props.mnemonic_common import IMPL, BIP39_LANGS, V2_LANGS, V2_TYPES, oracle_for, salt_field, nfkd
 from harness.props.c01 import pre_build, words_of, spec_encode, respell, gen_encode
-from harness.props.c17 import v2_valid_entropy
+from harness.props.c17 import v2_valid_entropy, v2_prefix_phrases
 from bip_utils import (Bip39SeedGenerator, Bip39Languages, ElectrumV1MnemonicEncoder, SubstrateBip39SeedGenerator,
                        ElectrumV2SeedGenerator, ElectrumV1SeedGenerator)
 
@@ -48,6 +48,26 @@ def gen(rng, tier):
         ws = s.split(" ")
         ws[0], ws[1] = ws[1], ws[0]
         yield Case("ev2seed", [lang, tx(" ".join(ws)), oracle_for(" ".join(ws)), salt_field("electrum", p)], "neg-ev2")
+    # Electrum v2: a sentence yields a seed only under one of the four version prefixes (digit-by-digit neighbours are refused)
+    engw = lists["ENGLISH"]
+    for pre, ph in sorted(v2_prefix_phrases(rng, engw, ["01", "100", "103", "107", "10f", "11", "00"] if tier == "quick" else
+                                            ["01", "100", "101", "102"] + ["10%x" % d for d in range(3, 16)] + ["00", "02", "11", "1f"]).items()):
+        yield Case("ev2seed", [rng.choice(["ENGLISH", "auto"]), tx(ph), oracle_for(ph), salt_field("electrum", "pw")], "ev2seed-prefix-" + ("type" if pre in ("01", "100", "101", "102") else "none"))
+    # output-dependent: sentences whose NFKD UTF-8 length sits on the HMAC block size (128 bytes) and next to it — the PBKDF2 password
+    # is hashed first only when it is LONGER than a block
+    got = {}
+    for j in range(40000):
+        lang = BIP39_LANGS[j % 9]
+        if lang.startswith("CHINESE") or lang in ("KOREAN",):
+            continue
+        ws = spec_encode(lists[lang], bytes(rng.randrange(256) for _ in range(rng.choice([20, 24, 28, 32]))))
+        L = len(nfkd(" ".join(ws)).encode("utf-8"))
+        if L in (127, 128, 129) and (L, lang) not in got and sum(1 for k in got if k[0] == L) < (2 if tier == "quick" else 6):
+            got[(L, lang)] = ws
+            sb = " ".join(ws)
+            yield Case("bip39seed", [lang, tx(sb), oracle_for(sb), salt_field("mnemonic", PASSPHRASES[j % 5])], "bip39seed-len-%d" % L)
+        if len({k[0] for k in got}) == 3 and len(got) >= (6 if tier == "quick" else 18):
+            break
     for i in range(2 if tier == "quick" else 25):
         e = bytes(rng.randrange(256) for _ in range(16))
         s = ElectrumV1MnemonicEncoder().Encode(e).ToStr()
